@@ -25,7 +25,7 @@ Ev == T.ev[l]
 
 TInit == /\ tid \in 1..Len(Batch) /\ l = 1
          /\ kind = Batch[tid].kind /\ shape = Batch[tid].shape /\ pc = "choose"
-         /\ saved = Nothing /\ file = Nothing /\ loaded = Nothing /\ memo = Nothing /\ recomp = NoMesh /\ gen = 1
+         /\ saved = Nothing /\ file = Nothing /\ loaded = Nothing /\ memo = Nothing /\ recomp = NoMesh /\ cursor = Nothing /\ gen = 1
 
 IsEv(e) == l <= Len(T.ev) /\ Ev.ev = e /\ l' = l + 1 /\ UNCHANGED tid
 
@@ -63,9 +63,12 @@ TLoad == /\ IsEv("load") /\ Ev.ok /\ Load
               [] OTHER -> loaded' = Ev.rec
 
 \* the second object saved under the path must really be another one (else the history shows nothing)
+\* the frame shown by the ONE browsed object after solve_step = k, against the file content logged at the save event
+TBrowse == /\ IsEv("browse") /\ Ev.ok /\ Browse(Ev.k)
+           /\ cursor'.frame = Ev.frame
 TRemove == /\ IsEv("remove") /\ Ev.ok /\ Remove
 TMadeAgain == pc = "removed" => (Ev.saved # saved)
-TNext == (TMade /\ TMadeAgain) \/ TSave \/ TLoad \/ TRemove
+TNext == (TMade /\ TMadeAgain) \/ TSave \/ TLoad \/ TBrowse \/ TRemove
 TSpec == TInit /\ [][TNext]_tvars
 
 Accepted == (l = Len(T.ev) + 1) => PrintT(<<"ACCEPT", tid>>)
